@@ -54,6 +54,9 @@ CHECKS = {
   'C20': dict(category='other', technique='symbolic execution of the traced forcing code to z3 terms (sin/cos/exp uninterpreted with instantiated axioms, floor via to_int) + QF_UFNRA/QF_NRA/QF_LIRA queries with lemma decomposition and cut points; real numpy code on symbolic duck arrays; polynomial identities with atoms',
               text='Radiation: for ALL phases, positions and solar constants: |sin altitude|<=1, irradiance bounds, 0 <= flux <= S+dS, flux = 0 iff sun not above horizon, normalised flux in [0,1], 2pi-periodicity in both phases; orbital phases in [0,2pi) and congruent to elapsed time. Held-Suarez: friction/relaxation rates for ALL sigma levels and parameters (non-negative, zero above the boundary layer), linear drag law, temperature relaxation affine in T and independent of wind, no surface-pressure tendency, equilibrium floor.',
               design='§3 C20'),
+  'C18': dict(category='other', technique='symbolic scalars (z3 Real; Float64 bit-vector term + rounding-error-model term) executed through the real scales.py / pint / xarray_utils code, numpy integer cast captured; QF_NRA, QF_BVFP (z3 then cvc5) and QF_LIRA queries',
+              text='Scale laws (inverse, unit independence, products/quotients/powers) for ALL magnitudes and ALL positive base scales; whole-second durations and minute-resolution datetimes through the real conversion code decided bit-precisely on a bounded range (both signs) and by the rounding-error model up to 2^26 minutes; orbital phases from symbolic day-of-year/hour/minute.',
+              design='§3 C18'),
   'C13': dict(category='other', technique='symbolic execution of the traced jaxpr + QF_LRA queries (monomial abstraction for bilinear clauses)',
               text='Bounded symbolic verification of the sigma calculus identities for ALL column data and vertical velocities on each enumerated level set (even, dyadic uneven, seeded random), axis and shape.',
               design='§3 C13'),
